@@ -407,13 +407,30 @@ class ExprMixin:
                 return
             raise Unsupported("exception attribute %s" % attr, node)
         if isinstance(obj, Val) and isinstance(obj.ty, TOpt) and isinstance(obj.ty.inner, TRef):
-            self.check(st, z3.Not(opt_isnone(obj)), "safe", "not-none@.%s" % attr, node)
-            obj = opt_inner(obj)
+            if st.pure:
+                obj = opt_inner(obj)
+            else:
+                for st1, isn in self.branch(st, opt_isnone(obj)):
+                    if isn:
+                        yield st1, Raise(ExcVal("AttributeError"))
+                    else:
+                        yield from self.get_attr(opt_inner(obj), attr, st1, node)
+                return
+        if isinstance(obj, Val) and isinstance(obj.ty, TStr) and attr == "value":
+            self.note_assumption("enum members (Status.X) are modelled by their string values: `.value` is the identity")
+            yield st, obj
+            return
         if isinstance(obj, Val) and isinstance(obj.ty, TRef):
             fty = self.field_type(obj.ty.cls, attr)
             if fty is not None:
                 yield st, self.heap_read(st, obj, attr)
                 return
+            # the static class may be refined by the path condition (after an isinstance test)
+            for cand in self.known_subclasses(obj.ty.cls):
+                if cand != obj.ty.cls and self.field_type(cand, attr) is not None and \
+                        not feasible(st.pc, z3.Not(self.isinstance_term(obj, cand))):
+                    yield st, self.heap_read(st, Val(TRef(cand), obj.terms), attr)
+                    return
             # class constant / property / bound method
             cexpr, cinfo = self.repo.class_const(obj.ty.cls, attr)
             if cexpr is not None:
@@ -580,6 +597,13 @@ class ExprMixin:
     def ev_SetComp(self, node, st):
         from .strings import comprehension
         yield from comprehension(self, node, st, as_set=True)
+
+    def ev_DictComp(self, node, st):
+        if self.cur_ci is not None and self.cur_ci.decl.opts.get("opaque") is not None:
+            self.note_assumption("slice: a dictionary comprehension yields an untracked dictionary")
+            yield st, fresh(TOpaque("Any"), "dictcomp")
+            return
+        raise Unsupported("dict comprehension", node)
 
     def ev_Call(self, node, st):
         if is_skipped_call(node):
